@@ -1192,7 +1192,7 @@ static Value builtin_array_pop(Value *args) {
     
     if (dyn_array_length(arr) == 0) {
         fprintf(stderr, "Error: array_pop() on empty array\n");
-        return create_void();
+        exit(1);  /* Fail fast: the compiled program stops here too */
     }
     
     /* Pop element based on type */
